@@ -358,6 +358,8 @@ def check(prog, run):
     # ---- K10 every runtime routes ResolverError AND its subclasses to the else_ callback (shared with C08.R2)
     from . import c08
     c08.check_map_value_contract(prog, run, "K10")
+    # every null in a non-null position is reported: the check looks at the completed value (shared with C08.R14)
+    c08.check_non_null_after_completion(prog, run, "K11")
 
 
 def _defensive_default(raise_stmt):
